@@ -143,8 +143,14 @@ def serveSeq (h : Hashes) (v1 : Bool) (prefix_ key : String) (bodies : List J) :
 
 /-! ### the marker the storages write (`StorageKeyMarkingConvention._store_marker`) -/
 
-/-- `prefix and not prefix.startswith('kopf.')` -/
-def writesMarker (prefix_ : String) : Bool := prefix_ != "" && !("kopf.".toList.isPrefixOf prefix_.toList)
+/-- the prefix is `kopf.zalando.org` or a sub-domain of it (the two last rules of
+    `_detect_marked_prefixes`): such a prefix is marked by every key under it. -/
+def knownish (p : List Char) : Bool :=
+  knownPrefixes.any (fun kp => kp.toList == p) || knownPrefixes.any (fun kp => ('.' :: kp.toList).isSuffixOf p)
+
+/-- `prefix and not known` (kopf ef55390): the marker is skipped exactly for the prefixes that
+    `_detect_marked_prefixes` recognises without it. -/
+def writesMarker (prefix_ : String) : Bool := prefix_ != "" && !knownish prefix_.toList
 
 def markerKey (prefix_ : String) : String := prefix_ ++ "/kopf-managed"
 
@@ -340,17 +346,22 @@ def diffbaseBuild (h : Hashes) (extra : List (List String)) (body : J) : DiffBas
 
 inductive ProgressLeaf where
   | annotations (prefix_ : String)
-  | status (field : List String)       -- StatusProgressStorage and NoWriteStatusProgressStorage
+  | status (field touch : List String)  -- (NoWrite)StatusProgressStorage: `field`, `touch_field`
 
 /-- Multi/Smart are lists; a single storage is a one-element list. -/
 abbrev ProgressCfg := List ProgressLeaf
+
+/-- `dicts.remove(essence, self.field); dicts.remove(essence, self.touch_field)` (kopf dbb523b). -/
+def remove2 (e : J) (field touch : List String) : Except DictErr J := do
+  let e1 ← remove e field
+  remove e1 touch
 
 def clearLeaf (e : J) : ProgressLeaf → Except Err J
   | .annotations prefix_ =>
       if !metaOK e then .error .unmodelled else
       .ok (removeEmptyStanzas (filterAnnotations (fun k => !underPrefix prefix_.toList k) e))
-  | .status field => do
-      let e' ← liftD (remove e field)
+  | .status field touch => do
+      let e' ← liftD (remove2 e field touch)
       if !metaOK e' then throw .unmodelled
       pure (removeEmptyStanzas e')
 
